@@ -24,6 +24,7 @@ import (
 	"errors"
 	"fmt"
 	"io"
+	"os"
 	"sort"
 	"strings"
 	"testing"
@@ -57,7 +58,7 @@ type WOp struct {
 type Plan struct {
 	Seed      uint64         `json:"seed"`
 	Commits   int            `json:"commits"`
-	Layout    []int          `json:"layout"` // per stable object: 0 loose, 1 pack A, 2 pack B, 3 alternate loose, 4 alternate pack
+	Layout    []int          `json:"layout"`   // per stable object: 0 loose, 1 pack A, 2 pack B, 3 alternate loose, 4 alternate pack
 	PoolCap   int            `json:"pool_cap"` // 0 default pool, -1 no-op pool, n>0 capacity
 	InMemIdx  bool           `json:"in_mem_idx"`
 	SmallLRU  bool           `json:"small_lru"`
@@ -82,6 +83,11 @@ func genPlan(r *core.Rand, tier string) any {
 	for i := 0; i < nr; i++ {
 		var ops []Op
 		n := r.Range(1, 6)
+		if r.Chance(1, 3) {
+			// a late reader: it first touches the storage (so that the pack
+			// indexes are loaded), then lets the others (the writer) run for a while
+			ops = append(ops, Op{Kind: "has", K: r.Intn(64)}, Op{Kind: "pause", K: r.Pick2(50, 200, 600, 1500)})
+		}
 		for j := 0; j < n; j++ {
 			ops = append(ops, Op{Kind: kinds[r.Intn(len(kinds))], K: r.Intn(64)})
 			total++
@@ -229,7 +235,7 @@ func errKind(err error) string {
 		return "ref-not-found"
 	}
 	s := err.Error()
-	for _, k := range []string{"no such file", "file already closed", "closed", "bad file descriptor", "EOF", "malformed", "checksum", "zlib", "invalid"} {
+	for _, k := range []string{"packfile not found", "no such file", "file already closed", "closed", "bad file descriptor", "EOF", "malformed", "checksum", "zlib", "invalid"} {
 		if strings.Contains(s, k) {
 			return strings.ReplaceAll(k, " ", "-")
 		}
@@ -240,6 +246,11 @@ func errKind(err error) string {
 func execPlan(t *testing.T, pa any) (out core.Outcome) {
 	p := pa.(*Plan)
 	hooks.Deterministic(true)
+	if os.Getenv("C23_DEBUG") != "" {
+		simfs.DebugUseAfterClose = func(name, closedAt, usedAt string) {
+			fmt.Fprintf(os.Stderr, "USE-AFTER-CLOSE %s\nCLOSED AT:\n%s\nUSED AT:\n%s\n", name, closedAt, usedAt)
+		}
+	}
 	if p.Commits < 1 {
 		p.Commits = 1
 	}
@@ -248,7 +259,14 @@ func execPlan(t *testing.T, pa any) (out core.Outcome) {
 	}
 	var trace []string
 	var drv *sched.Driver
-	cfgName := "other-instance-writer"
+	// A repacking writer removes files the readers' Storage has indexed; an
+	// additive one never does. The two are told apart in every signature.
+	cfgName := "other-instance-writer:additive"
+	for _, w := range p.Writer {
+		if w.Kind == "repack" {
+			cfgName = "other-instance-writer:repack"
+		}
+	}
 	if p.SameInst {
 		cfgName = "same-instance-writer"
 	}
@@ -395,11 +413,27 @@ func execPlan(t *testing.T, pa any) (out core.Outcome) {
 		defer hooks.Uninstall()
 		disk.Sched = drv
 
+		// The statement covers readers of one Storage, alone or while ANOTHER
+		// instance writes. A writer on the readers' own Storage and
+		// ExclusiveAccess (which declares that nobody else touches the
+		// repository) are driven too, but what they show is counted, not judged.
+		outside := p.Exclusive || (p.SameInst && len(p.Writer) > 0)
+		stopped := false
 		fail := func(sig, format string, a ...any) {
+			if outside {
+				parts := strings.Split(sig, "|")
+				if len(parts) > 3 {
+					parts = parts[:3]
+				}
+				out.Probe("outside-statement:" + strings.Join(parts, "|") + "|" + cfgName)
+				stopped = true
+				return
+			}
 			if out.Signature == "" {
 				out.Fail(sig, format, a...)
 			}
 		}
+		_ = stopped
 		addStarted := make([]bool, nGrow) // the writer began adding grow[i]
 		absentID := func(k int) plumbing.Hash {
 			return objID(plumbing.BlobObject, []byte(fmt.Sprintf("never stored %d %d", p.Seed, k)))
@@ -427,11 +461,15 @@ func execPlan(t *testing.T, pa any) (out core.Outcome) {
 			who := fmt.Sprintf("r%d", ri)
 			tasks = append(tasks, sched.Task{Name: who, Fn: func() {
 				for oi, op := range ops {
-					if oi >= 8 || out.Signature != "" {
+					if oi >= 10 || out.Signature != "" || stopped {
 						return
 					}
 					o := stable[mod(op.K, len(stable))]
 					switch op.Kind {
+					case "pause":
+						for y := 0; y < op.K && y < 3000 && out.Signature == "" && !stopped; y++ {
+							drv.Yield("pause")
+						}
 					case "get", "gettyped":
 						want := plumbing.AnyObject
 						if op.Kind == "gettyped" {
@@ -603,7 +641,7 @@ func execPlan(t *testing.T, pa any) (out core.Outcome) {
 					defer st.Close()
 				}
 				for wi, w := range p.Writer {
-					if wi >= 4 || out.Signature != "" {
+					if wi >= 4 || out.Signature != "" || stopped {
 						return
 					}
 					switch w.Kind {
@@ -642,6 +680,14 @@ func execPlan(t *testing.T, pa any) (out core.Outcome) {
 							err = repo.RepackObjects(&git.RepackConfig{UseRefDeltas: mod(w.Ks[0], 2) == 1})
 						}
 						drv.Logf("w repack -> %s", errKind(err))
+						if err != nil && os.Getenv("C23_DEBUG") != "" {
+							fmt.Fprintf(os.Stderr, "REPACKERR %v\n", err)
+							for si, so := range stable {
+								if _, e2 := st.EncodedObject(plumbing.AnyObject, so.id); e2 != nil {
+									fmt.Fprintf(os.Stderr, "  writer cannot read stable[%d] %s %s layout=%d: %v\n", si, so.typ, so.id, layoutOf(si), e2)
+								}
+							}
+						}
 						if err == nil {
 							out.Probe("writer:repack")
 						} else {
@@ -658,7 +704,7 @@ func execPlan(t *testing.T, pa any) (out core.Outcome) {
 		if len(p.Maint) > 0 {
 			tasks = append(tasks, sched.Task{Name: "m", Fn: func() {
 				for mi, m := range p.Maint {
-					if mi >= 3 || out.Signature != "" {
+					if mi >= 3 || out.Signature != "" || stopped {
 						return
 					}
 					var err error
@@ -691,8 +737,13 @@ func execPlan(t *testing.T, pa any) (out core.Outcome) {
 			out.Inconclusive = "bubble-panic"
 		}
 		trace = append(trace, msg)
+		if os.Getenv("C23_DEBUG") != "" {
+			fmt.Fprintf(os.Stderr, "BUBBLEPANIC %.300s\n", msg)
+		}
 	} else if drv != nil {
-		if drv.Aborted == "deadlock" && out.Signature == "" {
+		if drv.Aborted == "deadlock" && (p.Exclusive || (p.SameInst && len(p.Writer) > 0)) {
+			out.Probe("outside-statement:C23|deadlock|" + cfgName)
+		} else if drv.Aborted == "deadlock" && out.Signature == "" {
 			out.Fail("C23|deadlock|"+cfgName, "all tasks blocked after %d steps", drv.Steps)
 		} else if drv.Aborted != "" && out.Signature == "" {
 			out.Inconclusive = drv.Aborted
@@ -703,13 +754,28 @@ func execPlan(t *testing.T, pa any) (out core.Outcome) {
 		}
 		sort.Strings(names)
 		for _, n := range names {
-			if out.Signature == "" {
+			if p.Exclusive || (p.SameInst && len(p.Writer) > 0) {
+				out.Probe("outside-statement:C23|panic|" + cfgName)
+			} else if out.Signature == "" {
 				out.Fail("C23|panic|"+cfgName, "task %s panicked: %.120v", n, drv.TaskPanic[n])
 			}
 		}
 	}
 	out.Trace = trace
-	out.LogHash = core.HashStrings(trace)
+	// The replay comparison uses the operations' results and the grant sequence
+	// by (task, operation class), not the path-level disk log: go-git closes
+	// cached pack handles while ranging over a Go map, so WHICH file is closed
+	// first is not a function of the plan, although the interleaving is.
+	var results []string
+	for _, l := range trace {
+		if l != "" && (l[0] < '0' || l[0] > '9') {
+			results = append(results, l)
+		}
+	}
+	out.LogHash = core.HashStrings(results)
+	if os.Getenv("C23_TRACE") != "" {
+		fmt.Fprintf(os.Stderr, "TRACE-BEGIN seed=%d\n%s\nTRACE-END\n", p.Seed, strings.Join(trace, "\n"))
+	}
 	out.NonTrivial = out.Probes["context-switches"] > 2
 	return out
 }
@@ -725,12 +791,12 @@ func TestCheck(t *testing.T) {
 			"a prefix search or an iteration is not required to list objects that live only in the alternate (go-git does not descend into alternates there, with or without concurrency)",
 			"the serialising driver adds happens-before edges between all tasks, so nothing is claimed about the statement's 'never race on shared memory' clause (DESIGN.md section 9)",
 			"ExclusiveAccess and same-instance writers are separate configurations named in the signature; they are outside the statement's listed configurations and are triaged on its wording"},
-		Real:    []string{"storage/filesystem ObjectStorage (requireIndex, findObjectInPackfile, alternates, iterators)", "dotgit", "internal/packhandle, sharedfile, x/fdpool", "packfile reader and idx (lazy / in-memory)", "Repository.RepackObjects, PackRefs, PackfileWriter on the writer side"},
-		Stub:    []string{"disk (simfs)", "clock (synctest)", "goroutine choice (seeded driver)"},
-		Runs:    map[string]int{"quick": 6000, "thorough": 300000},
-		NewPlan: func() any { return &Plan{} },
-		Gen:     genPlan,
-		Exec:    execPlan,
+		Real:           []string{"storage/filesystem ObjectStorage (requireIndex, findObjectInPackfile, alternates, iterators)", "dotgit", "internal/packhandle, sharedfile, x/fdpool", "packfile reader and idx (lazy / in-memory)", "Repository.RepackObjects, PackRefs, PackfileWriter on the writer side"},
+		Stub:           []string{"disk (simfs)", "clock (synctest)", "goroutine choice (seeded driver)"},
+		Runs:           map[string]int{"quick": 6000, "thorough": 300000},
+		NewPlan:        func() any { return &Plan{} },
+		Gen:            genPlan,
+		Exec:           execPlan,
 		RequiredProbes: []string{"writer:loose", "writer:pack", "writer:repack", "writer:packrefs", "maint:reindex", "maint:close-idle", "growing-object-seen"},
 	})
 }
